@@ -40,7 +40,10 @@ META = {
             "overflow ignored (needs 2^32767 items).",
 }
 
-RULE = ("special inputs: all_find of items never passed to any union (on empty and non-empty containers; answer = the item itself, a singleton "
+RULE = ("environment dimension rotated over the cases: YGM_COMM_ISSEND_FREQ 0/1/default, YGM_COMM_NUM_IRECVS 1/2/default, YGM_COMM_NUM_ISENDS_WAIT "
+        "0/1/4/default, cyclic rank placement on a third of the multi-node cases; item types int64_t / std::string / double (number 0 named +0.0 and "
+        "-0.0 alternately: one item; 4 and 8 ranks preferred); epochs: the container is destroyed right after fire-and-forget unions and the next "
+        "one constructed at the same address, each epoch judged against its own unions only. special inputs: all_find of items never passed to any union (on empty and non-empty containers; answer = the item itself, a singleton "
         "(0,item) is created: size/num_sets/for_all/later unions see it), self-loops through async_union and async_union_and_execute on items "
         "occurring in no other edge (item created, nothing merged, no callback; size()/num_sets() are read BEFORE the dump visitor could create "
         "it), disjoint_set<std::string> in every sixth case. two-communicator / two-container dimension: a quarter of the multi-rank cases run the same script (same function, same template "
@@ -108,7 +111,7 @@ def gen_edges(rnd, family, universe):
 FAMILIES = ["sparse", "chain", "clique", "star", "dups", "pairs-then-join"]
 
 
-def gen_script(rnd, nranks, big):
+def gen_script(rnd, nranks, big, zero=False):
     """returns dict(tokens, steps, ...).  steps: ("ops", [(kind, rank|'*', a, b)]), ("dump", id), ("find", id, mode, extras),
     ("forall", id), ("clear", k).  A script has 1..3 segments separated by clear(); the last batch of unions before a
     clear() is usually NOT followed by any barrier-containing call: clear() itself has to complete it, and nothing of it may
@@ -116,6 +119,8 @@ def gen_script(rnd, nranks, big):
     nitems = rnd.choice([3, 5, 8, 12, 20, 32] if not big else [8, 16, 32, 48, 64])
     spread = rnd.choice([1, 1, 7, 1000])
     universe = sorted(rnd.sample(range(0, nitems * spread + 1), nitems))
+    if zero and 0 not in universe:
+        universe[0] = 0       # double items: number 0 is named +0.0 and -0.0 by the harness; it must be ONE item
     kindmode = rnd.choice(["u", "x", "x", "mixed", "u-then-x"])
     nseg = 1 if rnd.random() < 0.5 else rnd.choice([2, 2, 3])
     toks, steps = [], []
@@ -166,6 +171,10 @@ def gen_script(rnd, nranks, big):
             E = gen_edges(rnd, fam, sub)
             if not E:
                 E = [(sub[0], sub[-1])]
+            if zero:
+                for _ in range(rnd.choice([1, 2, 3])):
+                    x = rnd.choice(sub)
+                    E.insert(rnd.randrange(len(E) + 1), rnd.choice([(0, x), (x, 0), (0, 0)]))
             for z in pool:       # further unions involving the items all_find created
                 if rnd.random() < 0.7:
                     E.insert(rnd.randrange(len(E) + 1), (z, rnd.choice(sub)) if rnd.random() < 0.5 else (rnd.choice(sub), z))
@@ -210,7 +219,9 @@ def gen_script(rnd, nranks, big):
                 steps.append(("dump", did))
                 did += 1
         if not last_seg:
-            toks.append("K")
+            # K = clear(); E = end of an epoch: the container is destroyed (its destructor has to complete the unions just
+            # issued) and the next epoch's container is constructed at the same address.  Both: empty container afterwards.
+            toks.append("K" if rnd.random() < 0.5 else "E")
             steps.append(("clear", seg))
             if POST_CLEAR_NOBARRIER and rnd.random() < 0.4:
                 continue      # next segment's unions follow clear() immediately
@@ -264,7 +275,11 @@ def run_real(binary, case):
         env["YGM_COMM_ROUTING"] = case["routing"]
     if case.get("buffer") is not None:
         env["YGM_COMM_BUFFER_SIZE_KB"] = case["buffer"]
-    mtok = "M:" + case.get("mode", "w") + (":2" if case.get("two") else "") + (":str" if case.get("items") == "str" else "")
+    for k, v in (case.get("env") or {}).items():      # YGM_COMM_ISSEND_FREQ / NUM_IRECVS / NUM_ISENDS_WAIT
+        env[k] = v
+    if case.get("placement"):
+        env["SIMMPI_PLACEMENT"] = case["placement"]
+    mtok = "M:" + case.get("mode", "w") + (":2" if case.get("two") else "") + {"str": ":str", "dbl": ":dbl"}.get(case.get("items"), "")
     return C.run_sim(binary, [mtok] + list(case["tokens"]), nodes=nodes, ppn=ppn, env=env, sim_seed=case["sim_seed"],
                      policy=case["policy"], want_log=False, timeout=120, max_steps=120000, livelock=60000)
 
@@ -663,33 +678,53 @@ def make_case(rnd, idx, one_rank, big):
         routing = ROUTINGS[idx % 3]
         buffer_ = BUFFERS[(idx // 3) % 3]
         policy = POLICIES[idx % 5]
+    # item type: every sixth case std::string, every sixth double (the rest int64_t); doubles prefer 4 and 8 ranks
+    items = "str" if idx % 6 == 3 else ("dbl" if idx % 6 == 5 else "int")
+    if items == "dbl" and not one_rank:
+        layout = rnd.choice([(2, 2), (1, 4), (2, 4), (2, 4), (1, 3), (2, 3), (1, 7)])
     nranks = layout[0] * layout[1]
-    script = gen_script(rnd, nranks, big)
+    script = gen_script(rnd, nranks, big, zero=(items == "dbl"))
     tokens = script["tokens"]
     # new dimensions (deterministic in the case index, recorded in the case): a quarter of the multi-rank cases run the
     # same script on a sub-communicator of another size first (or afterwards); every fifth case keeps a second
     # disjoint_set of the same type alive on the same communicator with its own interleaved script
     mode = "w"
     if not one_rank and idx % 4 == 1:
+        mode = "sub"
         # only splits that keep the ranks per node uniform (ygm::layout assumes it): one node -> parity or last-vs-rest;
         # several nodes -> one sub-communicator per node, or parity when the node size is even
         if layout[0] == 1:
             kind = "p" if (idx // 4) % 2 == 0 else "l"
         else:
             kind = "p" if (layout[1] % 2 == 0 and (idx // 4) % 2 == 0) else "n"
+    # environment dimension (rotated over the cases, recorded in the case): communicator knobs and rank placement
+    env = {}
+    v = [None, 0, 1][(idx // 2) % 3]
+    if v is not None:
+        env["YGM_COMM_ISSEND_FREQ"] = v
+    v = [None, 1, 2][(idx // 5) % 3]
+    if v is not None:
+        env["YGM_COMM_NUM_IRECVS"] = v
+    v = [None, 0, 1, 4][(idx // 7) % 4]
+    if v is not None:
+        env["YGM_COMM_NUM_ISENDS_WAIT"] = v
+    placement = "cyclic" if (layout[0] > 1 and idx % 3 == 0) else None
+    if placement and mode != "w":
+        kind = "p"      # two nodes, round-robin placement: the parity split is one node per sub-communicator
+    if mode != "w":
         mode = ("sw" if (idx // 4) % 3 != 2 else "ws") + ":" + kind
     two = idx % 5 == 2
     if two:
-        other = gen_script(rnd, nranks, False)
+        other = gen_script(rnd, nranks, False, zero=(items == "dbl"))
         tokens = interleave(rnd, tokens, other["tokens"])
     case = {"layout": list(layout), "routing": routing, "buffer": buffer_, "policy": policy, "sim_seed": rnd.randrange(1, 10 ** 6),
             "tokens": tokens, "model_seed": rnd.randrange(1, 10 ** 9), "mode": mode, "two": two,
             # every sixth case runs disjoint_set<std::string> (zero-padded decimals: same order as the numbers) instead of <int64_t>
-            "items": "str" if idx % 6 == 3 else "int"}
+            "items": items, "env": env, "placement": placement}
     return case, script
 
 
-BARRIER_TOKENS = ("B", "D", "N", "F", "A", "K")
+BARRIER_TOKENS = ("B", "D", "N", "F", "A", "K", "E")
 
 
 def script_from_tokens(tokens, cid=0, nranks=None):
@@ -726,8 +761,10 @@ def script_from_tokens(tokens, cid=0, nranks=None):
             steps.append(("find", int(f[1]), f[2], [int(x) for x in f[3].split(",") if x] if len(f) > 3 else []))
         elif f[0] == "A":
             steps.append(("forall", int(f[1])))
-        elif f[0] == "K":
-            steps.append(("clear", sum(1 for x in steps if x[0] == "clear")))
+        elif f[0] in ("K", "E"):
+            # clear() and destroy+construct are the same for oracle and model: everything issued before is completed
+            # (barrier inside clear() / inside the destructor), afterwards the container is empty
+            steps.append(("clear", sum(1 for x in steps if x[0] == "clear"), f[0]))
         elif f[0] == "B":
             steps.append(("barrier",))
     if ops:
@@ -759,8 +796,8 @@ def evaluate(binary, case, script, model_ok, res):
     out = _evaluate(binary, case, model_ok, res)
     racy = False
     for cid in ((0, 1) if case.get("two") else (0,)):
-        st_kinds = [st[0] for st in script_from_tokens(case["tokens"], cid)["steps"]]
-        racy = racy or any(a == "clear" and b == "ops" for a, b in zip(st_kinds, st_kinds[1:]))
+        sts = script_from_tokens(case["tokens"], cid)["steps"]
+        racy = racy or any(a[0] == "clear" and a[2] == "K" and b[0] == "ops" for a, b in zip(sts, sts[1:]))
     if racy:
         # label the symptoms of D9 (unions issued right after clear() lost / mixed with the wiped segment); other failures
         # of such scripts keep their plain signature
@@ -890,6 +927,11 @@ def run(tier, seed, model_ok=True):
         res.count("comm=" + case.get("mode", "w").split(":")[0] + ("" if case.get("mode", "w") == "w" else "/" + case["mode"].split(":")[1]))
         res.count("containers=" + ("2" if case.get("two") else "1"))
         res.count("items=" + case.get("items", "int"))
+        for k_, v_ in (case.get("env") or {}).items():
+            res.count(f"{k_}={v_}")
+        res.count("placement=" + (case.get("placement") or "block"))
+        if any(t.split("/")[-1] == "E" for t in case["tokens"]):
+            res.count("scripts-with-epochs(destroy+construct at the same address)")
         toks_ = case["tokens"]
         if any(t.split("/")[-1].startswith("F:") and t.count(":") >= 3 for t in toks_):
             res.count("scripts-with-all_find-of-never-unioned-items")
